@@ -155,6 +155,10 @@ class Exec:
 
     # ------------------------------------------------------------------ statements
     def run_block(self, stmts, frames):
+        if getattr(self, "_loop_ids", None) is None:
+            # loops are numbered statically, in source order (outer before inner), over the statements this executor was
+            # started on: a loop keeps its ordinal however many forked paths reach it
+            self._loop_ids = _number_loops(stmts)
         for st in stmts:
             nxt = []
             for fr in frames:
@@ -231,6 +235,8 @@ class Exec:
             return self.run_while(st, fr)
         if isinstance(st, ast.Pass):
             return [fr]
+        if isinstance(st, ast.Try):
+            return self.run_try(st, fr)
         if isinstance(st, (ast.Import, ast.ImportFrom)):
             for a in st.names:
                 fr.env[(a.asname or a.name).split(".")[0]] = Opaque(a.asname or a.name)
@@ -239,6 +245,33 @@ class Exec:
             fr.env[st.name] = ("localfn", st, dict(fr.env))
             return [fr]
         raise Unsupported(f"statement {type(st).__name__} at line {st.lineno}")
+
+    def run_try(self, st, fr):
+        """`try: <validation calls whose results are discarded; simple assignments> except (...): <handler>` - the
+        probing idiom (`try: check(x); ok = True / except ...: ok = False`).  The contract says WHEN a call raises one of
+        the handled exceptions (`raises` hook: a condition over the call's arguments, typically an uninterpreted
+        predicate); the raising path runs the handler from the state reached so far, the other path goes on.  The calls
+        themselves are not executed: their only modelled effect is to raise or not (assumption, reported)."""
+        hook = getattr(self.spec, "raises", None)
+        if st.finalbody or st.orelse or len(st.handlers) != 1 or st.handlers[0].name or hook is None:
+            raise Unsupported(f"try statement at line {st.lineno} outside the probing idiom (or the contract has no `raises` model)")
+        self.assumptions.add("try/except: a call statement inside `try` has no effect on the modelled state other than raising (or not) as the contract's `raises` model says")
+        handler = st.handlers[0].body
+        frames, out = [fr], []
+        for s_ in st.body:
+            if isinstance(s_, ast.Expr) and isinstance(s_.value, ast.Call):
+                nxt = []
+                for f in frames:
+                    cond = hook(self, f, s_.value)
+                    if cond is NotImplemented:
+                        raise Unsupported(f"no `raises` model for the call at line {s_.lineno}")
+                    out.extend(self.branch(cond, f, lambda g: self.run_block(handler, [g]), lambda g: (nxt.append(g), [])[1]))
+                frames = nxt
+            elif isinstance(s_, ast.Assign) and all(isinstance(t, ast.Name) for t in s_.targets):
+                frames = self.run_block([s_], frames)
+            else:
+                raise Unsupported(f"statement {type(s_).__name__} inside try at line {s_.lineno}")
+        return out + frames
 
     def branch(self, c, fr, then, orelse):
         if isinstance(c, bool):
@@ -258,9 +291,15 @@ class Exec:
         return out
 
     # ------------------------------------------------------------------ loops
+    def _ordinal(self, st):
+        o = self._loop_ids.get(id(st)) if getattr(self, "_loop_ids", None) else None
+        if o is None:
+            o = self.loop_counter
+        self.loop_counter = max(self.loop_counter, o + 1)
+        return o
+
     def run_for(self, st, fr):
-        ordinal = self.loop_counter
-        self.loop_counter += 1
+        ordinal = self._ordinal(st)
         if st.orelse:
             raise Unsupported("for-else")
         it = self.seq_of(self.eval(st.iter, fr), fr)
@@ -391,8 +430,7 @@ class Exec:
         return [fr]
 
     def run_while(self, st, fr):
-        ordinal = self.loop_counter
-        self.loop_counter += 1
+        ordinal = self._ordinal(st)
         inv = self.spec.invariants.get(ordinal)
         if inv is None:
             raise Unsupported(f"while loop #{ordinal} at line {st.lineno} needs an invariant")
@@ -1765,6 +1803,26 @@ def _as_load(t):
 
 def _names(t):
     return {n.id for n in ast.walk(t) if isinstance(n, ast.Name)}
+
+
+def _number_loops(stmts):
+    ids = {}
+
+    def visit(body):
+        for st in body:
+            if isinstance(st, (ast.For, ast.While)):
+                ids[id(st)] = len(ids)
+            if isinstance(st, ast.FunctionDef):
+                continue  # local functions are run by their own executor
+            for field in ("body", "orelse", "finalbody"):
+                sub = getattr(st, field, None)
+                if isinstance(sub, list):
+                    visit(sub)
+            for h in getattr(st, "handlers", []) or []:
+                visit(h.body)
+
+    visit(stmts)
+    return ids
 
 
 def _count_loops(stmts):
